@@ -7,7 +7,7 @@ import copy
 import re as _re
 from typing import Dict, List, Optional, Tuple
 
-from ..core import Unrecognised, call_name, calls_in, dotted, module_of, positional_arity, site, src, walk_local, attr_writes, MUTATORS, fold, NotConstant
+from ..core import clone, Unrecognised, call_name, calls_in, dotted, module_of, positional_arity, site, src, walk_local, attr_writes, MUTATORS, fold, NotConstant
 
 PRED = "src/isla/isla_predicates.py"
 SPEC = "sphinx/islaspec.rst"
@@ -50,7 +50,7 @@ def normalise(fn: ast.FunctionDef) -> Tuple[ast.FunctionDef, List[str]]:
         mapping[params[0]] = "T"
         mapping[params[-2]] = "P1"
         mapping[params[-1]] = "P2"
-    f2 = copy.deepcopy(fn)
+    f2 = clone(fn)
     for n in ast.walk(f2):
         if isinstance(n, ast.Name) and n.id in mapping:
             n.id = mapping[n.id]
@@ -244,7 +244,7 @@ def check_before(ctx, nf, f, c):
     rets = [s for s in g.body if isinstance(s, ast.Return)]
     if gtxt not in ("not P1 or not P2", "not P2 or not P1") or not rets:
         raise Unrecognised("C04.G2", c, f"before: guard `{gtxt}` not recognised")
-    ctx.check(src(rets[0].value) == "False", rule, c, "exhausted path -> False", site(g),
+    ctx.check(src(rets[0].value) == "False", rule, c, "exhausted path -> False", site(f),
               "before must be False when either path is exhausted (one node is an ancestor of the other or they are equal)", "prefix pairs are not ordered")
     # car/cdr split
     heads = {}
@@ -272,11 +272,11 @@ def check_before(ctx, nf, f, c):
     d = dict(cases)
     lt = d.get(f"{h1} < {h2}", d.get(f"{h2} > {h1}"))
     gt = d.get(f"{h2} < {h1}", d.get(f"{h1} > {h2}"))
-    ctx.check(lt == "True", rule, c, "head_1 < head_2 -> True", site(chain[0]), f"smaller first index means earlier in document order; found {lt}", "earlier sibling branch -> True")
-    ctx.check(gt == "False", rule, c, "head_2 < head_1 -> False", site(chain[0]), f"larger first index means later in document order; found {gt}", "later sibling branch -> False")
+    ctx.check(lt == "True", rule, c, "head_1 < head_2 -> True", site(f), f"smaller first index means earlier in document order; found {lt}", "earlier sibling branch -> True")
+    ctx.check(gt == "False", rule, c, "head_2 < head_1 -> False", site(f), f"larger first index means later in document order; found {gt}", "later sibling branch -> False")
     rec = d.get("else")
     ok = rec in (f"{f.name}(T, tuple({t1}), tuple({t2}))", f"{f.name}(T, {t1}, {t2})")
-    ctx.check(ok, rule, c, "equal heads -> recurse on tails in order", site(chain[0]),
+    ctx.check(ok, rule, c, "equal heads -> recurse on tails in order", site(f),
               f"equal first indices must recurse on (tail_1, tail_2) in this order; found {rec}", "recursion keeps argument order")
 
 
